@@ -213,7 +213,7 @@ class Ctx:
             print("  " + v["what"][:600])
         cov = dict(self.cov)
         cov.setdefault("samples", [])
-        cov["samples"] = cov["samples"][:6]
+        cov["samples"] = cov["samples"][:6] or [{"note": "no individual sample was recorded by this run; see coverage.rule for what was exercised"}]
         ev = {
             "property_id": self.pid, "tier": self.tier, "seed": self.seed,
             "level": cov.pop("_level", "model_checking"),
